@@ -35,28 +35,32 @@ Definition mode_mix_covered (m : TransportMode) (x : Mix) : bool :=
 Lemma lattice_covers : forallb (fun m => forallb (mode_mix_covered m) Mix_all) TransportMode_all = true.
 Proof. vm_compute. reflexivity. Qed.
 
-Example lattice_has_ice_lite_answerer :
-  In (mkPoint TransportMode_Rtp Mix_audio_video BundlePolicy_Balanced RtcpMuxPolicy_Negotiate true
-              IceTcpPolicy_Disabled false true SdpCompatibilityMode_LegacySip false) lattice.
-Proof. unfold lattice. apply filter_In. split; [|vm_compute; reflexivity].
-  unfold all_points.
-  apply in_flat_map. exists TransportMode_Rtp. split; [cbn; tauto|].
-  apply in_flat_map. exists Mix_audio_video. split; [cbn; tauto|].
-  apply in_flat_map. exists BundlePolicy_Balanced. split; [cbn; tauto|].
-  apply in_flat_map. exists RtcpMuxPolicy_Negotiate. split; [cbn; tauto|].
-  apply in_flat_map. exists true. split; [cbn; tauto|].
-  apply in_flat_map. exists IceTcpPolicy_Disabled. split; [cbn; tauto|].
-  apply in_flat_map. exists false. split; [cbn; tauto|].
-  apply in_flat_map. exists true. split; [cbn; tauto|].
-  apply in_flat_map. exists SdpCompatibilityMode_LegacySip. split; [cbn; tauto|].
-  cbn. tauto. Qed.
+Example lattice_has_asymmetric_points :
+  exists p, In p lattice /\ p_ice_lite p = true /\ p_s_offers p = false /\ p_mode p = TransportMode_Rtp /\
+            p_compat p <> p_compat_peer p /\ p_rtcp_mux p <> p_rtcp_mux_peer p.
+Proof.
+  assert (H : existsb (fun p => p_ice_lite p && negb (p_s_offers p) && TransportMode_eqb (p_mode p) TransportMode_Rtp &&
+                       negb (SdpCompatibilityMode_eqb (p_compat p) (p_compat_peer p)) &&
+                       negb (RtcpMuxPolicy_eqb (p_rtcp_mux p) (p_rtcp_mux_peer p))) lattice = true) by (vm_compute; reflexivity).
+  apply existsb_exists in H. destruct H as [p [Hin H]]. exists p. split; [exact Hin|]. clear Hin.
+  repeat (apply andb_true_iff in H; destruct H as [H ?]).
+  destruct (p_ice_lite p), (p_s_offers p), (p_mode p), (p_compat p), (p_compat_peer p), (p_rtcp_mux p), (p_rtcp_mux_peer p);
+    cbn in *; try discriminate; repeat split; congruence.
+Qed.
+
+Example lattice_has_tcp_only_and_dcep :
+  existsb (fun p => p_tcp_only p && p_dcep p && p_ice_lite p) lattice = true.
+Proof. vm_compute. reflexivity. Qed.
 
 (* two ICE-lite agents, or two different transport modes, are NOT compatible: the predicate is not `true` *)
 Example incompatible_examples :
-  let a := mkCfg TransportMode_Rtp BundlePolicy_Balanced RtcpMuxPolicy_Require true IceTcpPolicy_Disabled false false SdpCompatibilityMode_Standard in
-  let b := mkCfg TransportMode_Srtp BundlePolicy_Balanced RtcpMuxPolicy_Require false IceTcpPolicy_Disabled false false SdpCompatibilityMode_Standard in
-  compatible a a = false /\ compatible a b = false /\ compatible b b = true.
-Proof. vm_compute. auto. Qed.
+  let a := mkCfg TransportMode_Rtp BundlePolicy_Balanced RtcpMuxPolicy_Require true IceTcpPolicy_Disabled true false false SdpCompatibilityMode_Standard in
+  let b := mkCfg TransportMode_Srtp BundlePolicy_Balanced RtcpMuxPolicy_Require false IceTcpPolicy_Disabled true false false SdpCompatibilityMode_Standard in
+  let c := mkCfg TransportMode_WebRtc BundlePolicy_Balanced RtcpMuxPolicy_Require false IceTcpPolicy_Enabled false false false SdpCompatibilityMode_Standard in
+  let d := mkCfg TransportMode_WebRtc BundlePolicy_Balanced RtcpMuxPolicy_Negotiate false IceTcpPolicy_Disabled true false false SdpCompatibilityMode_LegacySip in
+  compatible a a = false /\ compatible a b = false /\ compatible b b = true /\
+  compatible c d = false /\ compatible c c = true /\ compatible d d = true.
+Proof. vm_compute. repeat split; reflexivity. Qed.
 
 (* ------------------------------------------------------------------ roles *)
 Lemma roles_all : forallb roles_ok lattice = true.
@@ -106,6 +110,36 @@ Theorem answer_setup_emittable :
                         sa <> Setup_actpass.
 Proof. intros so. destruct so; eexists; (split; [vm_compute; reflexivity|split; [cbn; tauto|discriminate]]). Qed.
 
+(* where the a=setup value comes from: the first media-level one; the session-level one only when no
+   media section carries any (RFC 4145 4 allows either level) *)
+Theorem setup_source : forall s media session,
+  first_setup (s :: media) session = Some s /\ first_setup [] session = session.
+Proof. intros. unfold first_setup. split; [reflexivity|]. cbn. destruct session; reflexivity. Qed.
+
+(* a description rustrtc generated (same value on each of its n >= 1 sections, nothing at session level) is
+   read back as exactly that value: `negotiate` may pass the emitted value straight to derive_role *)
+Theorem described_setup_read_back : forall so n, 0 < n ->
+  first_setup (fst (described_setups so n)) (snd (described_setups so n)) = so.
+Proof.
+  intros so n Hn. unfold described_setups. destruct so as [s|]; cbn [fst snd]; [|reflexivity].
+  destruct (Z.to_nat n) eqn:E; [lia|]. apply setup_source.
+Qed.
+
+(* an offer that carries a=setup ONLY at session level (a non-rustrtc offerer) still yields complementary
+   roles, for any value: the answerer reads the session-level value, the offerer reads the answer's
+   media-level ones *)
+Theorem roles_complementary_session_level : forall so n, 0 < n ->
+  let ra := derive_role_desc TransportMode_WebRtc None [] (Some so) in
+  let d := described_setups (emitted_setup TransportMode_WebRtc Sdp_Answer ra) n in
+  let ro := derive_role_desc TransportMode_WebRtc None (fst d) (snd d) in
+  exists b, ro = Some b /\ ra = Some (negb b).
+Proof.
+  intros so n Hn. cbv zeta. unfold derive_role_desc.
+  rewrite described_setup_read_back by exact Hn.
+  destruct (setup_source so [] (Some so)) as [_ H]. rewrite H.
+  destruct (roles_complementary_any_offer_setup so) as [b [H1 H2]]. exists b. split; assumption.
+Qed.
+
 (* a role, once taken, is kept by every later description (re-offers emit actpass again) *)
 Theorem role_stable : forall m r s, derive_role m (Some r) s = Some r.
 Proof. reflexivity. Qed.
@@ -113,7 +147,7 @@ Proof. reflexivity. Qed.
 (* the hypothesis "the offer carries a=setup" is needed: without it the answerer never gets a role *)
 Example no_setup_no_role : answerer_role_for TransportMode_WebRtc None = None /\
                            offerer_role_for TransportMode_WebRtc None = Some false.
-Proof. vm_compute. auto. Qed.
+Proof. vm_compute. repeat split; reflexivity. Qed.
 
 (* rustrtc WebRtc offers always carry it; direct modes emit none and need none *)
 Theorem offer_setup_present : forall p, p_mode p = TransportMode_WebRtc ->
@@ -146,21 +180,29 @@ Theorem answer_within_offer : forall off ans x,
   (o_answer_mux (negotiate_c off ans x) = true -> o_offer_mux (negotiate_c off ans x) = true).
 Proof.
   intros off ans x. unfold negotiate_c. cbn [o_answer_bundle o_offer_bundle o_answer_mux o_offer_mux].
-  unfold answer_will_bundle. split; intros H.
-  - apply andb_true_iff in H. tauto.
+  split; intros H.
+  - destruct (offer_will_bundle (c_compat off) (mix_sections x)); [reflexivity|].
+    destruct (c_compat ans); vm_compute in H; discriminate.
   - apply andb_true_iff in H. tauto.
 Qed.
 
-(* on the lattice (shared policy / compat mode) both descriptions carry the same transport layout *)
+(* on every lattice point -- the two ends may differ in compatibility mode and rtcp-mux policy -- the answer
+   keeps exactly the offer's BUNDLE decision, and carries a=rtcp-mux iff the offer does and the answerer's
+   own policy offers it *)
+Lemma lattice_transport_agreement_b :
+  forallb (fun p => let o := negotiate p in
+     Bool.eqb (o_answer_bundle o) (o_offer_bundle o) &&
+     Bool.eqb (o_answer_mux o)
+              (o_offer_mux o && local_offers_rtcp_mux (c_rtcp_mux (answerer_cfg p)) (c_compat (answerer_cfg p)))) lattice = true.
+Proof. vm_compute. reflexivity. Qed.
+
 Theorem lattice_transport_agreement : forall p, In p lattice ->
   o_answer_bundle (negotiate p) = o_offer_bundle (negotiate p) /\
-  o_answer_mux (negotiate p) = o_offer_mux (negotiate p).
+  o_answer_mux (negotiate p) =
+    (o_offer_mux (negotiate p) && local_offers_rtcp_mux (c_rtcp_mux (answerer_cfg p)) (c_compat (answerer_cfg p)))%bool.
 Proof.
-  intros p _. unfold negotiate, negotiate_c, offerer_cfg, answerer_cfg, cfg_S, cfg_P.
-  destruct (p_s_offers p); cbn [o_answer_bundle o_offer_bundle o_answer_mux o_offer_mux c_compat c_rtcp_mux c_mode];
-  unfold answer_will_bundle, offer_will_bundle;
-  destruct (SdpCompatibilityMode_eqb (p_compat p) SdpCompatibilityMode_LegacySip), (mix_sections (p_mix p) >? 1)%Z,
-           (mix_has_media (p_mix p)), (local_offers_rtcp_mux (p_rtcp_mux p) (p_compat p)); auto.
+  intros p Hp. pose proof lattice_transport_agreement_b as H. rewrite forallb_forall in H. specialize (H p Hp).
+  cbv zeta in H. apply andb_true_iff in H as [H1 H2]. split; apply eqb_prop; assumption.
 Qed.
 
 (* ------------------------------------------------------------------ transport layout (listed finding C10-F2) *)
@@ -170,21 +212,11 @@ Theorem transport_layout_refuted :
   exists p, In p lattice /\ advertised_transports (p_mode p) (o_offer_bundle (negotiate p)) (p_mix p) <>
     configured_transports (p_mode p) (o_offer_bundle (negotiate p)) (p_mix p).
 Proof.
-  exists (mkPoint TransportMode_Srtp Mix_audio_video BundlePolicy_Balanced RtcpMuxPolicy_Require false
-                  IceTcpPolicy_Disabled false false SdpCompatibilityMode_LegacySip true).
-  split; [|vm_compute; discriminate].
-  unfold lattice. apply filter_In. split; [|vm_compute; reflexivity].
-  unfold all_points.
-  apply in_flat_map. exists TransportMode_Srtp. split; [cbn; tauto|].
-  apply in_flat_map. exists Mix_audio_video. split; [cbn; tauto|].
-  apply in_flat_map. exists BundlePolicy_Balanced. split; [cbn; tauto|].
-  apply in_flat_map. exists RtcpMuxPolicy_Require. split; [cbn; tauto|].
-  apply in_flat_map. exists false. split; [cbn; tauto|].
-  apply in_flat_map. exists IceTcpPolicy_Disabled. split; [cbn; tauto|].
-  apply in_flat_map. exists false. split; [cbn; tauto|].
-  apply in_flat_map. exists false. split; [cbn; tauto|].
-  apply in_flat_map. exists SdpCompatibilityMode_LegacySip. split; [cbn; tauto|].
-  cbn. tauto.
+  assert (H : existsb (fun p => negb (Z.eqb (advertised_transports (p_mode p) (o_offer_bundle (negotiate p)) (p_mix p))
+                                           (configured_transports (p_mode p) (o_offer_bundle (negotiate p)) (p_mix p))))
+                      lattice = true) by (vm_compute; reflexivity).
+  apply existsb_exists in H. destruct H as [p [Hin H]]. exists p. split; [exact Hin|].
+  apply negb_true_iff in H. apply Z.eqb_neq in H. exact H.
 Qed.
 
 (* the strongest true statement: outside exactly that class, on every lattice point, both descriptions
@@ -202,10 +234,10 @@ Proof.
   apply Z.eqb_eq in H1. apply Z.eqb_eq in H2. split; assumption.
 Qed.
 
-(* the class is exactly "SDES mode, audio and video, LegacySip (hence no BUNDLE)" *)
+(* the class is exactly "SDES mode, audio and video, LegacySip offerer (hence no BUNDLE)" *)
 Lemma layout_class_char_b : forallb (fun p => Bool.eqb (layout_known_class p)
     (TransportMode_eqb (p_mode p) TransportMode_Srtp && mix_has_audio (p_mix p) && mix_has_video (p_mix p) &&
-     SdpCompatibilityMode_eqb (p_compat p) SdpCompatibilityMode_LegacySip)) lattice = true.
+     SdpCompatibilityMode_eqb (c_compat (offerer_cfg p)) SdpCompatibilityMode_LegacySip)) lattice = true.
 Proof. vm_compute. reflexivity. Qed.
 
 (* ------------------------------------------------------------------ negotiated profile *)
@@ -244,6 +276,24 @@ Theorem profile_lens_agree : forall pr,
   dtls_key_len pr = srtp_key_len pr /\ dtls_salt_len pr = srtp_salt_len pr /\
   sdes_key_len pr = srtp_key_len pr /\ sdes_salt_len pr = srtp_salt_len pr.
 Proof. destruct pr; vm_compute; auto. Qed.
+
+(* the tables say what the registries say: use_srtp codes (RFC 5764 4.1.2, RFC 7714 14.2), SDES suite
+   names (RFC 4568 6.2, RFC 7714 14.1), master key / salt lengths (RFC 3711 8.2: 128 / 112 bits; RFC 7714
+   12: 96-bit salt for AEAD_AES_128_GCM) -- so a table that is merely self-consistent does not pass *)
+Theorem tables_match_registries :
+  srtp_profile_of_code (Some 1) = SrtpProfile_Aes128Sha1_80 /\
+  srtp_profile_of_code (Some 2) = SrtpProfile_Aes128Sha1_32 /\
+  srtp_profile_of_code (Some 7) = SrtpProfile_AeadAes128Gcm /\
+  map_crypto_suite Suite_AES_CM_128_HMAC_SHA1_80 = Some SrtpProfile_Aes128Sha1_80 /\
+  map_crypto_suite Suite_AES_CM_128_HMAC_SHA1_32 = Some SrtpProfile_Aes128Sha1_32 /\
+  map_crypto_suite Suite_AEAD_AES_128_GCM = Some SrtpProfile_AeadAes128Gcm /\
+  (forall pr, srtp_key_len pr = 16) /\
+  srtp_salt_len SrtpProfile_Aes128Sha1_80 = 14 /\ srtp_salt_len SrtpProfile_Aes128Sha1_32 = 14 /\
+  srtp_salt_len SrtpProfile_AeadAes128Gcm = 12 /\
+  sdes_offer_suite = Suite_AES_CM_128_HMAC_SHA1_80 /\
+  setup_of_role Sdp_Offer None = Setup_actpass /\
+  setup_is_client Setup_active = false /\ setup_is_client Setup_passive = true.
+Proof. repeat split; try reflexivity. Qed.
 
 (* ------------------------------------------------------------------ list slicing *)
 Lemma firstn_app_skipn {A} : forall n m (l : list A), firstn n l ++ firstn m (skipn n l) = firstn (n + m) l.
@@ -329,7 +379,7 @@ Qed.
 Example keys_layout_premise_satisfiable :
   Z.of_nat (length (map Z.of_nat (seq 0 60))) = exporter_len (Some 1) /\
   Z.of_nat (length (map Z.of_nat (seq 0 56))) = exporter_len (Some 7).
-Proof. vm_compute. auto. Qed.
+Proof. vm_compute. repeat split; reflexivity. Qed.
 
 (* ------------------------------------------------------------------ SDES *)
 (* A's local key material is B's remote one and vice versa (each side parses the other's a=crypto) *)
